@@ -63,6 +63,21 @@ class Search:
         self.tag = tag              # passed to run_case through ctx['phase']
 
 
+class Machine:
+    """A Hypothesis RuleBasedStateMachine. factory(cap) returns the machine class; the machine appends every
+    operation it performs to cap['ops'] (so the failing history is a plain replayable case) and reports each
+    completed example through cap['done'](case, result)."""
+    kind = 'machine'
+
+    def __init__(self, name, factory, examples, steps, shards=1, tag=None):
+        self.name = name
+        self.factory = factory
+        self.examples = examples
+        self.steps = steps
+        self.shards = shards
+        self.tag = tag
+
+
 class Enumerate:
     kind = 'enum'
 
@@ -178,15 +193,21 @@ def execute(mod, case, ctx, limit=None):
     _OUT.seek(0)
     _OUT.truncate()
     if limit:
-        signal.signal(signal.SIGALRM, _alarm)
-        signal.setitimer(signal.ITIMER_REAL, limit)
+        # CPU time of this process, not wall-clock time: a loaded or paused machine must never look like a hang
+        signal.signal(signal.SIGVTALRM, _alarm)
+        signal.setitimer(signal.ITIMER_VIRTUAL, limit)
     try:
         with contextlib.redirect_stdout(_OUT):
             return mod.run_case(case, ctx)
     except Watchdog:
-        if getattr(mod, 'WATCHDOG_IS_VIOLATION', False):
-            raise Violation(f'{mod.ID}.watchdog', f'case did not return within {limit:.0f}s '
-                            '(statement: the run returns / the check completes)')
+        if getattr(mod, 'WATCHDOG_IS_VIOLATION', False) and not ctx.get('_confirming'):
+            # confirm with three times the budget before believing it
+            try:
+                return execute(mod, case, dict(ctx, _confirming=True), limit * 3)
+            except Inconclusive:
+                raise Violation(f'{mod.ID}.watchdog', f'case consumed more than {limit * 3:.0f}s of CPU time twice without '
+                                'returning (statement: the run returns / the check completes); typical cases take '
+                                'milliseconds')
         raise Inconclusive('watchdog')
     except (Violation, Inconclusive):
         raise
@@ -209,14 +230,15 @@ def execute(mod, case, ctx, limit=None):
         raise HarnessError(f'harness exception: {e!r}\n' + traceback.format_exc())
     finally:
         if limit:
-            signal.setitimer(signal.ITIMER_REAL, 0)
+            signal.setitimer(signal.ITIMER_VIRTUAL, 0)
 
 
 def case_limit(stats):
+    """Per-case budget in seconds of CPU time: far above anything a terminating case needs."""
     if len(stats.times) >= 20:
         med = sorted(stats.times)[len(stats.times) // 2]
-        return max(30.0, 1000 * med)
-    return 60.0
+        return min(max(10.0, 500 * med), 30.0)
+    return 20.0
 
 
 # ------------------------------------------------------------------------------------ shard workers
@@ -237,7 +259,7 @@ def _search_worker(args):
     @hseed(seed)
     @given(ph.strategy())
     def prop(case):
-        t0 = time.perf_counter()
+        t0 = time.process_time()
         try:
             res = execute(mod, case, ctx, case_limit(stats))
         except Inconclusive as e:
@@ -259,7 +281,7 @@ def _search_worker(args):
         if res is not None and res.get('excluded'):
             stats.excluded += 1
             return
-        stats.add(case, res, time.perf_counter() - t0)
+        stats.add(case, res, time.process_time() - t0)
 
     try:
         prop()
@@ -273,6 +295,33 @@ def _search_worker(args):
         else:
             return stats, None, f'search failed: {e!r}\n{traceback.format_exc()}'
     return stats, (fail or None), None
+
+
+def _machine_worker(args):
+    modname, phase_index, tier, seed, shrink, excluded = args
+    mod = load(modname)
+    ph = mod.phases(tier)[phase_index]
+    from hypothesis import settings, HealthCheck, Phase, Verbosity, seed as hseed
+    from hypothesis.stateful import run_state_machine_as_test
+    stats = Stats()
+    cap = {'ops': []}
+
+    def done(case, res):
+        stats.add(case, res, 0.0)
+    cap['done'] = done
+    M = ph.factory(cap)
+    phases = [Phase.generate] + ([Phase.shrink] if shrink else [])
+    st_ = settings(max_examples=ph.examples, stateful_step_count=ph.steps, database=None, deadline=None,
+                   derandomize=False, report_multiple_bugs=False, suppress_health_check=list(HealthCheck),
+                   phases=phases, verbosity=Verbosity.quiet, print_blob=False)
+    try:
+        with contextlib.redirect_stdout(io.StringIO()):
+            run_state_machine_as_test(hseed(seed)(M), settings=st_)
+    except Violation as v:
+        return stats, {'case': {'ops': json.loads(canon(cap['ops']))}, 'oracle': v.oracle, 'msg': v.msg}, None
+    except Exception as e:
+        return stats, None, f'state machine failed: {e!r}\n{traceback.format_exc()}'
+    return stats, None, None
 
 
 def _enum_worker(args):
@@ -377,7 +426,7 @@ def minimise(mod, case, oracle, ctx, budget_s=40.0, max_evals=1500):
                     continue
             evals += 1
             try:
-                execute(mod, cand, ctx, 20.0)
+                execute(mod, cand, dict(ctx, _confirming=True), 20.0)
             except Violation as v:
                 if v.oracle == oracle:
                     best, msg, improved = cand, v.msg, True
@@ -554,10 +603,10 @@ def run_property(modname, tier, seed, replay=None, workers=None):
         while True:
             rounds += 1
             tp = time.time()
-            if ph.kind == 'search':
+            if ph.kind in ('search', 'machine'):
                 jobs = [(modname, pi, tier, seed * 1000 + s + 100 * pi, tier == 'thorough', sorted(excluded))
                         for s in range(ph.shards)]
-                worker = _search_worker
+                worker = _search_worker if ph.kind == 'search' else _machine_worker
             else:
                 jobs = [(modname, pi, tier, c, sorted(excluded)) for c in range(ph.chunks)]
                 worker = _enum_worker
@@ -584,6 +633,8 @@ def run_property(modname, tier, seed, replay=None, workers=None):
             else:
                 info['shards'] = ph.shards
                 info['examples_per_shard'] = ph.examples
+                if ph.kind == 'machine':
+                    info['stateful_step_count'] = ph.steps
             if fail is None:
                 phases_info.append(info)
                 break
